@@ -42,6 +42,9 @@
 //	if/else-if/else, switch          -> if … then … else … ; when no branch returns: let (assigned vars) := if … then
 //	                                    (…; (vars)) else (vars) and the rest follows once; when some branch returns the
 //	                                    rest of the function is repeated in every branch that falls through
+//	if v := e; cond { … }            -> let v : T := e in front of the translated if (first `if` of a chain only, `:=` only);
+//	                                    fatal if the name v denotes anything else anywhere in the function (the Lean
+//	                                    let outlives the Go scope)
 //	return e1, e2                    -> (e1, e2)
 //	x := … inside a branch           -> fatal if the name x is declared anywhere else in the function (the rest of the
 //	                                    function is translated inside the branch: Go shadowing would capture it)
